@@ -189,6 +189,8 @@ def add(a, b) -> T:
         return a
     if isc(a):  # constants to the right
         a, b = b, a
+    if isc(b) and a.op == "+" and isc(a.args[1]) and not RAW[0]:  # (x + c1) + c2 -> x + (c1 + c2)
+        return add(a.args[0], const(cval(a.args[1]) + cval(b)))
     return T("+", (a, b), R)
 
 
@@ -516,6 +518,10 @@ def fn(name: str, *args) -> T:
     if name == "exp" and args[0].op == "neg" and args[0].args[0].op == "fn" and args[0].args[0].args[0] == "log":
         return div(ONE, args[0].args[0].args[1])
     if name == "log" and args[0].op == "fn" and args[0].args[0] == "exp":
+        return args[0].args[1]
+    if name == "tanh" and args[0].op == "fn" and args[0].args[0] == "atanh":
+        return args[0].args[1]  # on atanh's domain |x| < 1
+    if name == "atanh" and args[0].op == "fn" and args[0].args[0] == "tanh":
         return args[0].args[1]
     if all(isc(a) for a in args):
         v = _fn_float(name, [float(cval(a)) for a in args])
